@@ -187,6 +187,13 @@ func (ts *TermStore) Add(a, b *Term) *Term {
 	if b.IsConst() && b.Val.Sign() == 0 {
 		return a
 	}
+	if t := ts.normLinear(a, b, false); t != nil {
+		return t
+	}
+	return ts.rawAdd(a, b)
+}
+
+func (ts *TermStore) rawAdd(a, b *Term) *Term {
 	return ts.mk(&Term{Op: OpAdd, Sort: SInt, Args: []*Term{a, b}, Lo: addB(a.Lo, b.Lo), Hi: addB(a.Hi, b.Hi)})
 }
 
@@ -199,6 +206,9 @@ func (ts *TermStore) Sub(a, b *Term) *Term {
 	}
 	if a == b {
 		return ts.Int(0)
+	}
+	if t := ts.normLinear(a, b, true); t != nil {
+		return t
 	}
 	return ts.mk(&Term{Op: OpSub, Sort: SInt, Args: []*Term{a, b}, Lo: subB(a.Lo, b.Hi), Hi: subB(a.Hi, b.Lo)})
 }
@@ -239,6 +249,15 @@ func (ts *TermStore) Mul(a, b *Term) *Term {
 			return a
 		}
 	}
+	if b.IsConst() && (a.Op == OpAdd || a.Op == OpSub || a.Op == OpNeg || a.Op == OpMul) {
+		if t := ts.normScaled(a, b.Val); t != nil {
+			return t
+		}
+	}
+	return ts.rawMul(a, b)
+}
+
+func (ts *TermStore) rawMul(a, b *Term) *Term {
 	var lo, hi *big.Int
 	if a.Lo != nil && a.Hi != nil && b.Lo != nil && b.Hi != nil {
 		c := []*big.Int{mulB(a.Lo, b.Lo), mulB(a.Lo, b.Hi), mulB(a.Hi, b.Lo), mulB(a.Hi, b.Hi)}
@@ -260,6 +279,9 @@ func (ts *TermStore) DivE(a *Term, d *big.Int) *Term {
 	if d.Cmp(big.NewInt(1)) == 0 {
 		return a
 	}
+	if q, _, ok := ts.splitLinear(a, d); ok {
+		return q
+	}
 	var lo, hi *big.Int
 	if a.Lo != nil {
 		lo, _ = new(big.Int).DivMod(a.Lo, d, new(big.Int))
@@ -280,6 +302,9 @@ func (ts *TermStore) ModE(a *Term, d *big.Int) *Term {
 	}
 	if a.Lo != nil && a.Hi != nil && a.Lo.Sign() >= 0 && a.Hi.Cmp(d) < 0 {
 		return a
+	}
+	if _, r, ok := ts.splitLinear(a, d); ok {
+		return r
 	}
 	return ts.mk(&Term{Op: OpModE, Sort: SInt, Args: []*Term{a, ts.IntBig(d)}, Lo: big.NewInt(0), Hi: new(big.Int).Sub(d, big.NewInt(1))})
 }
@@ -679,4 +704,146 @@ func defaultVal(t *Term) *big.Int {
 		return t.Hi
 	}
 	return z
+}
+
+// linear form: sum of coef*term plus constant
+type linTerm struct {
+	coef *big.Int
+	t    *Term
+}
+
+func (ts *TermStore) linearize(a *Term, coef *big.Int, out *[]linTerm, k *big.Int) {
+	switch a.Op {
+	case OpConst:
+		k.Add(k, new(big.Int).Mul(coef, a.Val))
+	case OpAdd:
+		ts.linearize(a.Args[0], coef, out, k)
+		ts.linearize(a.Args[1], coef, out, k)
+	case OpSub:
+		ts.linearize(a.Args[0], coef, out, k)
+		ts.linearize(a.Args[1], new(big.Int).Neg(coef), out, k)
+	case OpNeg:
+		ts.linearize(a.Args[0], new(big.Int).Neg(coef), out, k)
+	case OpMul:
+		if a.Args[1].IsConst() {
+			ts.linearize(a.Args[0], new(big.Int).Mul(coef, a.Args[1].Val), out, k)
+			return
+		}
+		if a.Args[0].IsConst() {
+			ts.linearize(a.Args[1], new(big.Int).Mul(coef, a.Args[0].Val), out, k)
+			return
+		}
+		*out = append(*out, linTerm{coef, a})
+	default:
+		*out = append(*out, linTerm{coef, a})
+	}
+}
+
+// splitLinear rewrites a = d*q + r with 0 <= r < d when a is a linear form
+// whose summands are either multiples of d or together confined to [0,d).
+func (ts *TermStore) splitLinear(a *Term, d *big.Int) (q, r *Term, ok bool) {
+	if a.Op != OpAdd && a.Op != OpSub {
+		return nil, nil, false
+	}
+	var lts []linTerm
+	k := new(big.Int)
+	ts.linearize(a, big.NewInt(1), &lts, k)
+	if len(lts) > 12 {
+		return nil, nil, false
+	}
+	qt := ts.Int(0)
+	rt := ts.Int(0)
+	any := false
+	for _, lt := range lts {
+		m := new(big.Int)
+		qq, _ := new(big.Int).DivMod(lt.coef, d, m)
+		if m.Sign() == 0 {
+			qt = ts.Add(qt, ts.Mul(lt.t, ts.IntBig(qq)))
+			any = true
+		} else {
+			rt = ts.Add(rt, ts.Mul(lt.t, ts.IntBig(lt.coef)))
+		}
+	}
+	if !any {
+		return nil, nil, false
+	}
+	kq, km := new(big.Int).DivMod(k, d, new(big.Int))
+	qt = ts.Add(qt, ts.IntBig(kq))
+	rt = ts.Add(rt, ts.IntBig(km))
+	if rt.Lo == nil || rt.Hi == nil || rt.Lo.Sign() < 0 || rt.Hi.Cmp(d) >= 0 {
+		return nil, nil, false
+	}
+	return qt, rt, true
+}
+
+// normLinear returns the canonical linear form of a+b (or a-b), or nil when
+// the operands are too large to normalise cheaply.
+func (ts *TermStore) normLinear(a, b *Term, sub bool) *Term {
+	var lts []linTerm
+	k := new(big.Int)
+	ts.linearize(a, big.NewInt(1), &lts, k)
+	if sub {
+		ts.linearize(b, big.NewInt(-1), &lts, k)
+	} else {
+		ts.linearize(b, big.NewInt(1), &lts, k)
+	}
+	return ts.buildLinear(lts, k)
+}
+
+func (ts *TermStore) normScaled(a *Term, c *big.Int) *Term {
+	var lts []linTerm
+	k := new(big.Int)
+	ts.linearize(a, c, &lts, k)
+	return ts.buildLinear(lts, k)
+}
+
+func (ts *TermStore) buildLinear(lts []linTerm, k *big.Int) *Term {
+	if len(lts) > 48 {
+		return nil
+	}
+	// combine like atoms
+	coef := map[*Term]*big.Int{}
+	var atoms []*Term
+	for _, lt := range lts {
+		if c, ok := coef[lt.t]; ok {
+			c.Add(c, lt.coef)
+		} else {
+			coef[lt.t] = new(big.Int).Set(lt.coef)
+			atoms = append(atoms, lt.t)
+		}
+	}
+	sortTermsByID(atoms)
+	var acc *Term
+	for _, at := range atoms {
+		c := coef[at]
+		if c.Sign() == 0 {
+			continue
+		}
+		var piece *Term
+		if c.Cmp(big.NewInt(1)) == 0 {
+			piece = at
+		} else {
+			piece = ts.rawMul(at, ts.IntBig(c))
+		}
+		if acc == nil {
+			acc = piece
+		} else {
+			acc = ts.rawAdd(acc, piece)
+		}
+	}
+	if acc == nil {
+		return ts.IntBig(k)
+	}
+	if k.Sign() != 0 {
+		acc = ts.rawAdd(acc, ts.IntBig(k))
+	}
+	return acc
+}
+
+func sortTermsByID(a []*Term) {
+	for i := 1; i < len(a); i++ {
+		for j := i; j > 0 && a[j].id < a[j-1].id; j-- {
+			a[j], a[j-1] = a[j-1], a[j]
+		}
+	}
 }
